@@ -1,8 +1,10 @@
 // Command group replays C17 cases (spec/GroupGen.tla) on the real pkg/group Execute* functions.
 //
-// A case fixes the strategy, the entry point, each member's planned outcome, which members are
+// A case fixes the strategy, the entry point, each member's planned outcome and, for a failing member,
+// the kind of error it returns (plain, context.Canceled / DeadlineExceeded bare, wrapped with %w, or as
+// gRPC status: a member's own error, whatever the state of the group's context), which members are
 // cancellation-aware and the order in which the members are allowed to return (0 in the order = the
-// caller cancels its context).  Every member blocks on its own gate; the harness opens the gates one
+// caller cancels its context, -1 = the caller's deadline passes).  Every member blocks on its own gate; the harness opens the gates one
 // event at a time and, after each event, waits until the call is *quiescent*: every goroutine that
 // belongs to the call (frames of pkg/group or of this harness's member/caller functions) is parked on a
 // channel/semaphore.  Go readies a parked goroutine in the same step that makes it runnable (close,
@@ -37,6 +39,8 @@ import (
 	"time"
 
 	"google.golang.org/grpc"
+	"google.golang.org/grpc/codes"
+	"google.golang.org/grpc/status"
 	"google.golang.org/protobuf/proto"
 	"google.golang.org/protobuf/types/known/wrapperspb"
 
@@ -50,14 +54,15 @@ import (
 const maxCarried = 60
 
 type Case struct {
-	Id    int    `json:"id"`
-	Kind  string `json:"kind"`
-	Strat string `json:"strat"`
-	Api   string `json:"api"`
-	N     int    `json:"n"`
-	Plan  []bool `json:"plan"`
-	Aware []bool `json:"aware"`
-	Order []int  `json:"order"`
+	Id    int      `json:"id"`
+	Kind  string   `json:"kind"`
+	Strat string   `json:"strat"`
+	Api   string   `json:"api"`
+	N     int      `json:"n"`
+	Plan  []bool   `json:"plan"`
+	Fk    []string `json:"fk"` // kind of error of a failing member
+	Aware []bool   `json:"aware"`
+	Order []int    `json:"order"`
 }
 
 type Batch struct {
@@ -67,47 +72,149 @@ type Batch struct {
 
 type Obs struct {
 	Case
-	Panic    string  `json:"panic"`
-	Returned bool    `json:"returned"`
-	RetAt    int     `json:"retAt"` // number of events after which the call was seen to be back, -1 never
-	Err      int     `json:"err"`   // -1 nil, m: member m's error, 0: another error
-	ErrText  string  `json:"errText"`
-	Idx      int     `json:"idx"` // 1-based, 0 = not applicable
-	Msg      int     `json:"msg"`
-	Res      []int   `json:"res"`
-	ResLen   int     `json:"resLen"`
-	Ran      []bool  `json:"ran"`
-	Act      []int   `json:"act"`
-	Seen     []bool  `json:"seen"`
-	Obs      []Batch `json:"obs"`
-	Leak     int     `json:"leak"`
-	LeakSend int     `json:"leakSend"` // parked in `responses <- r`
-	LeakWait int     `json:"leakWait"` // parked in all.Wait()
-	LeakText string  `json:"leakText"`
-	Quiet    bool    `json:"quiet"` // quiescence was always reached within the bound
+	Panic    string   `json:"panic"`
+	Returned bool     `json:"returned"`
+	RetAt    int      `json:"retAt"` // number of events after which the call was seen to be back, -1 never
+	Err      int      `json:"err"`   // -1 nil, m: member m's error, 0: an error without member id
+	Errk     string   `json:"errk"`  // kind of the returned error
+	Ek       []string `json:"ek"`    // kind of error each member returned, "" none
+	Cc       int      `json:"cc"`    // 0, or the first batch that may have seen the caller's context ended
+	ErrText  string   `json:"errText"`
+	Idx      int      `json:"idx"` // 1-based, 0 = not applicable
+	Msg      int      `json:"msg"`
+	Res      []int    `json:"res"`
+	ResLen   int      `json:"resLen"`
+	Ran      []bool   `json:"ran"`
+	Act      []int    `json:"act"`
+	Seen     []bool   `json:"seen"`
+	Obs      []Batch  `json:"obs"`
+	Leak     int      `json:"leak"`
+	LeakSend int      `json:"leakSend"` // parked in `responses <- r`
+	LeakWait int      `json:"leakWait"` // parked in all.Wait()
+	LeakText string   `json:"leakText"`
+	Quiet    bool     `json:"quiet"` // quiescence was always reached within the bound
 }
 
-type memberErr struct {
-	m      int
-	cancel bool
-}
+type memberErr struct{ m int }
 
-func (e *memberErr) Error() string {
-	if e.cancel {
-		return fmt.Sprintf("member %d: context cancelled", e.m)
+func (e *memberErr) Error() string { return fmt.Sprintf("member %d failed", e.m) }
+
+// makeErr builds member m's error of the given kind.  Every kind but the bare context errors names the member.
+func makeErr(m int, kind string) error {
+	switch kind {
+	case "canceled":
+		return context.Canceled
+	case "deadline":
+		return context.DeadlineExceeded
+	case "wcanceled":
+		return fmt.Errorf("member %d: %w", m, context.Canceled)
+	case "wdeadline":
+		return fmt.Errorf("member %d: %w", m, context.DeadlineExceeded)
+	case "gcanceled":
+		return status.Errorf(codes.Canceled, "member %d", m)
+	case "gdeadline":
+		return status.Errorf(codes.DeadlineExceeded, "member %d", m)
 	}
-	return fmt.Sprintf("member %d failed", e.m)
+	return &memberErr{m}
 }
+
+var memberRe = regexp.MustCompile(`member (\d+)`)
 
 func errID(err error) int {
 	if err == nil {
 		return -1
 	}
-	var me *memberErr
-	if errors.As(err, &me) {
-		return me.m
+	if m := memberRe.FindStringSubmatch(err.Error()); m != nil {
+		id, _ := strconv.Atoi(m[1])
+		return id
 	}
 	return 0
+}
+
+func errKind(err error) string {
+	switch {
+	case err == nil:
+		return ""
+	case err == context.Canceled:
+		return "canceled"
+	case err == context.DeadlineExceeded:
+		return "deadline"
+	}
+	if g, ok := err.(interface{ GRPCStatus() *status.Status }); ok {
+		switch g.GRPCStatus().Code() {
+		case codes.Canceled:
+			return "gcanceled"
+		case codes.DeadlineExceeded:
+			return "gdeadline"
+		}
+		return "other"
+	}
+	var me *memberErr
+	switch {
+	case errors.Is(err, context.Canceled):
+		return "wcanceled"
+	case errors.Is(err, context.DeadlineExceeded):
+		return "wdeadline"
+	case errors.As(err, &me):
+		return "plain"
+	}
+	return "other"
+}
+
+// manualCtx is the caller's context: it ends (cancelled or deadline exceeded) when the harness says so.
+// It implements AfterFunc, so contexts derived from it are cancelled synchronously inside end() and no
+// propagation goroutine exists that the quiescence detection would have to know about.
+type manualCtx struct {
+	mu    sync.Mutex
+	done  chan struct{}
+	err   error
+	funcs map[int]func()
+	next  int
+}
+
+func newManualCtx() *manualCtx { return &manualCtx{done: make(chan struct{}), funcs: map[int]func(){}} }
+
+func (c *manualCtx) Deadline() (time.Time, bool) { return time.Time{}, false }
+func (c *manualCtx) Done() <-chan struct{}       { return c.done }
+func (c *manualCtx) Value(any) any               { return nil }
+func (c *manualCtx) Err() error {
+	c.mu.Lock()
+	defer c.mu.Unlock()
+	return c.err
+}
+func (c *manualCtx) AfterFunc(f func()) (stop func() bool) {
+	c.mu.Lock()
+	if c.err != nil {
+		c.mu.Unlock()
+		f()
+		return func() bool { return false }
+	}
+	id := c.next
+	c.next++
+	c.funcs[id] = f
+	c.mu.Unlock()
+	return func() bool {
+		c.mu.Lock()
+		defer c.mu.Unlock()
+		_, ok := c.funcs[id]
+		delete(c.funcs, id)
+		return ok
+	}
+}
+func (c *manualCtx) end(err error) {
+	c.mu.Lock()
+	if c.err != nil {
+		c.mu.Unlock()
+		return
+	}
+	c.err = err
+	fs := c.funcs
+	c.funcs = map[int]func(){}
+	close(c.done)
+	c.mu.Unlock()
+	for _, f := range fs {
+		f()
+	}
 }
 
 func msgID(m proto.Message) int {
@@ -159,12 +266,13 @@ func (r *run) grpMember(ctx context.Context, m int) error {
 	var err error
 	act := 1
 	if cancelled {
-		err, act = &memberErr{m, true}, 2
+		err, act = fmt.Errorf("member %d: %w", m, ctx.Err()), 2
 	} else if !r.c.Plan[m-1] {
-		err, act = &memberErr{m, false}, 0
+		err, act = makeErr(m, r.c.Fk[m-1]), 0
 	}
 	r.mu.Lock()
 	r.o.Act[m-1] = act
+	r.o.Ek[m-1] = errKind(err)
 	r.o.Seen[m-1] = ctx.Err() != nil
 	r.returns = append(r.returns, m)
 	r.mu.Unlock()
@@ -218,12 +326,14 @@ func (r *run) grpCaller(ctx context.Context) {
 		for _, x := range res {
 			o.Res = append(o.Res, msgID(x))
 		}
+		o.Errk = errKind(err)
 		if err != nil {
 			o.ErrText = err.Error()
 		}
 	}
 	single := func(res proto.Message, i int, err error) {
 		o.Err, o.Idx, o.Msg = errID(err), i+1, msgID(res)
+		o.Errk = errKind(err)
 		if err != nil {
 			o.ErrText = err.Error()
 		}
@@ -251,7 +361,7 @@ func (r *run) grpCaller(ctx context.Context) {
 			g := onoffpb.NewGroup(onoffClient{r: r}, names...)
 			g.ReadExecution = strategies[c.Strat]
 			_, err := g.GetOnOff(ctx, &traits.GetOnOffRequest{Name: "group"})
-			o.Err = errID(err)
+			o.Err, o.Errk = errID(err), errKind(err)
 			if err != nil {
 				o.ErrText = err.Error()
 			}
@@ -259,7 +369,7 @@ func (r *run) grpCaller(ctx context.Context) {
 			g := lightpb.NewGroup(lightClient{r: r}, names...)
 			g.WriteExecution = strategies[c.Strat]
 			_, err := g.UpdateBrightness(ctx, &traits.UpdateBrightnessRequest{Name: "group", Brightness: &traits.Brightness{LevelPercent: 50}})
-			o.Err = errID(err)
+			o.Err, o.Errk = errID(err), errKind(err)
 			if err != nil {
 				o.ErrText = err.Error()
 			}
@@ -354,7 +464,10 @@ func quiesce() ([]gor, bool) {
 
 func runCase(c Case) *Obs {
 	o := &Obs{Case: c, RetAt: -1, Err: -1, ResLen: -1, Res: []int{}, Ran: make([]bool, c.N), Act: make([]int, c.N),
-		Seen: make([]bool, c.N), Obs: []Batch{}, Quiet: true}
+		Seen: make([]bool, c.N), Ek: make([]string, c.N), Obs: []Batch{}, Quiet: true}
+	if len(o.Fk) != c.N {
+		hx.Fatal("case %d: fk has %d entries for %d members", c.Id, len(o.Fk), c.N)
+	}
 	for i := range o.Act {
 		o.Act[i] = -1
 	}
@@ -371,8 +484,8 @@ func runCase(c Case) *Obs {
 	for i := range r.gates {
 		r.gates[i] = make(chan struct{})
 	}
-	parent, cancelParent := context.WithCancel(context.Background())
-	defer cancelParent()
+	parent := newManualCtx()
+	defer parent.end(context.Canceled)
 
 	settle := func(lead int, events int) []gor {
 		gs, ok := quiesce()
@@ -400,8 +513,15 @@ func runCase(c Case) *Obs {
 	go r.grpCaller(parent)
 	gs := settle(0, 0)
 	for k, ev := range c.Order {
-		if ev == 0 {
-			cancelParent()
+		if ev <= 0 {
+			if ev == 0 {
+				parent.end(context.Canceled)
+			} else {
+				parent.end(context.DeadlineExceeded)
+			}
+			if o.Cc == 0 {
+				o.Cc = k + 2 // event k+1 produces batch k+2 (batch 1 is the start)
+			}
 		} else {
 			close(r.gates[ev-1])
 		}
